@@ -45,6 +45,7 @@ GROUPS = {
     ],
     "subdag": [U("subdag", "ConstructSubdagArgUxns"), U("subdag", "DescribeSubDag")],
     "compose": [U("compose", "AddMissingDeps"), U("compose", "Compose")],
+    "decorators": [U("decorators", "XnDecorator"), U("decorators", "DagDecorator")],
     "threads": [U("threads", "InDescriptionContext"), U("threads", "ThreadsafeMakeDag"), U("threads", "WrapMakeDag"), U("threads", "MakeDag")],
 }
 
